@@ -171,6 +171,9 @@ def run_check(pid, tier, seed, keep=False, only=None):
     plan = None
     try:
         plan = spec.plan(tier)
+        scale = float(os.environ.get("VK_TIMEOUT_SCALE", "1"))  # for loaded machines; verdicts are unaffected
+        plan.per_harness_timeout = int(plan.per_harness_timeout * scale)
+        plan.total_timeout = int(plan.total_timeout * scale)
         rnd = random.Random(seed)
         rnd.shuffle(plan.harnesses)  # VERIF_SEED only permutes the order of queries
         if only:
